@@ -55,8 +55,14 @@ func classBlock() [][]classDef {
 // classSession: the definitions, a variable holding an instance of the last class, probes of own and inherited slots.
 func classSession(h []classDef, k int) (forms, probes []string) {
 	for i, c := range h {
-		forms = append(forms, fmt.Sprintf("(defclass %s (%s) ((%s-s :initarg :%s-s :initform %d)) (:documentation \"class %s\"))",
-			c.name, strings.Join(c.supers, " "), c.name, c.name, 10*k+i, c.name))
+		// c19-shared: a slot every class with fewer than two direct superclasses defines with its own initform; a class
+		// with two parents inherits it, from the parent that comes first in its precedence
+		shared := fmt.Sprintf(" (c19-shared :initform %d)", 1000+10*k+i)
+		if len(c.supers) > 1 {
+			shared = ""
+		}
+		forms = append(forms, fmt.Sprintf("(defclass %s (%s) ((%s-s :initarg :%s-s :initform %d)%s) (:documentation \"class %s\"))",
+			c.name, strings.Join(c.supers, " "), c.name, c.name, 10*k+i, shared, c.name))
 	}
 	last := h[len(h)-1].name
 	forms = append(forms, fmt.Sprintf("(defparameter *ci* (make-instance '%s :%s-s '(x %d)))", last, last, k))
@@ -65,6 +71,9 @@ func classSession(h []classDef, k int) (forms, probes []string) {
 		// an inherited slot (an error for an unrelated class, in both processes)
 		probes = append(probes, fmt.Sprintf("(slot-value (make-instance '%s) '%s-s)", last, c.name))
 		probes = append(probes, fmt.Sprintf("(slot-value *ci* '%s-s)", c.name))
+		// a slot every class of the hierarchy defines with its own initform: the value an instance gets depends on the
+		// precedence of its class, hence on the ORDER of the direct superclasses (coq/C19/Reload.v inherit_list)
+		probes = append(probes, fmt.Sprintf("(slot-value (make-instance '%s) 'c19-shared)", c.name))
 	}
 	return
 }
@@ -95,4 +104,28 @@ func classCase(forms []string, snap1 []string) (term string, ok bool) {
 		}
 	}
 	return "CCase " + common.GList(h) + " " + common.GList(written), true
+}
+
+// classFormsCase renders the Gallina KCase: the hierarchy of the session and the (name, direct superclasses) of the
+// defclass forms of the snapshot, superclasses in the order they are written.
+func classFormsCase(forms []string, snap1 []string) (term string, ok bool) {
+	read := func(fs []string, first bool) (h []string) {
+		seen := map[string]bool{}
+		for _, f := range fs {
+			if m := defclassRe.FindStringSubmatch(f); m != nil && !(first && seen[m[1]]) {
+				seen[m[1]] = true
+				var sups []string
+				for _, s := range strings.Fields(m[2]) {
+					sups = append(sups, gStr(s))
+				}
+				h = append(h, "("+gStr(m[1])+", "+common.GList(sups)+")")
+			}
+		}
+		return
+	}
+	h := read(forms, true)
+	if len(h) == 0 {
+		return "", false
+	}
+	return "KCase " + common.GList(h) + " " + common.GList(read(snap1, false)), true
 }
